@@ -683,6 +683,58 @@ ALGO = {'all_of': ('all', True), 'any_of': ('any', False), 'none_of': ('none', T
         'find_if': ('find', None), 'find_if_not': ('find_not', None), 'for_each': ('each', None)}
 
 
+def _desugar_extremum(facts, F, B, ei, E, last, seq):
+    """`std::max_element(b, e, [](x, y){ return less(x, y); })` is `best = b; for (it = b; it != e; ++it) if (less(*best, *it)) best = it;`
+    (the first of the largest elements; the comparison of the first element with itself is false for any strict order).
+    `min_element` compares the other way round."""
+    args = E.get('args') or []
+    if len(args) != 3 or not (isinstance(args[2], dict) and args[2].get('k') == 'lambda' and args[2].get('fn') in facts['functions']):
+        return False
+    lam = facts['functions'][args[2]['fn']]
+    if len(lam.get('params') or []) != 2:
+        return False
+    k = 'ext%d' % seq
+    line = E.get('line')
+    base = max(b['id'] for b in F['blocks']) + 1
+    H, BODY, UPD, STEP, CONT = base, base + 1, base + 2, base + 3, base + 4
+    it = {'k': 'var', 'n': 'it@' + k, 'vk': 'local', 'tk': 'record', 'ty': 'iterator'}
+    best = {'k': 'var', 'n': 'best@' + k, 'vk': 'local', 'tk': 'record', 'ty': 'iterator'}
+
+    def elem(v, p):
+        return {'k': 'call', 'name': 'iterator::operator*', 'op': '*', 'recv': dict(v), 'args': [], 'tk': p.get('tk')}
+    a0, a1 = (best, it) if last == 'max_element' else (it, best)
+    pred = {'k': 'call', 'name': lam['name'], 'fn': lam['id'], 'op': '()', 'args': [elem(a0, lam['params'][0]), elem(a1, lam['params'][1])],
+            'tk': 'bool', 'line': line}
+    cmp_ = {'k': 'call', 'name': 'operator!=', 'op': '!=', 'args': [dict(it), copy.deepcopy(args[1])], 'tk': 'bool'}
+    cont = {'id': CONT, 'ev': B['ev'][ei + 1:], 'succ': B.get('succ', [])}
+    if 'term' in B:
+        cont['term'] = B['term']
+        del B['term']
+    key = _call_key(E)
+
+    def repl(d, key=key, fnid=E.get('fn')):
+        if d.get('k') == 'call' and d.get('fn') == fnid and _call_key(d) == key:
+            return dict(best)
+        return None
+    cont['ev'] = [{kk: _map(vv, repl) for kk, vv in e.items()} for e in cont['ev']]
+    if 'term' in cont:
+        cont['term'] = _map(cont['term'], repl)
+    pre = [e for e in B['ev'][:ei] if not (e.get('k') == 'fnref' and e.get('fn') == lam['id'])]
+    B['ev'] = pre + [{'k': 'decl', 'n': best['n'], 'init': copy.deepcopy(args[0]), 'ty': 'iterator', 'tk': 'record', 'line': line, 'src': 'best = <first>'},
+                     {'k': 'decl', 'n': it['n'], 'init': copy.deepcopy(args[0]), 'ty': 'iterator', 'tk': 'record', 'line': line, 'src': 'it = <first>'}]
+    B['succ'] = [H]
+    F['blocks'] += [
+        {'id': H, 'ev': [dict(cmp_, line=line, src='it != <last>')], 'succ': [BODY, CONT],
+         'term': {'kind': 'for', 'cond': cmp_, 'line': line, 'src': 'it != <last>'}},
+        {'id': BODY, 'ev': [dict(pred, src='less(*best, *it)')], 'succ': [UPD, STEP],
+         'term': {'kind': 'if', 'cond': {kk: vv for kk, vv in pred.items() if kk != 'line'}, 'line': line, 'src': 'less(*best, *it)'}},
+        {'id': UPD, 'ev': [{'k': 'asg', 'op': '=', 'l': dict(best), 'r': dict(it), 'line': line, 'src': 'best = it'}], 'succ': [STEP]},
+        {'id': STEP, 'ev': [{'k': 'asg', 'op': '++', 'l': dict(it), 'line': line, 'src': '++it'}], 'succ': [H]},
+        cont,
+    ]
+    return True
+
+
 def _desugar_into_container(facts, F, B, ei, E, last, seq):
     """`std::transform(b, e, std::back_inserter(out), f)` is `for (it = b; it != e; ++it) out.push_back(f(*it));`;
     `std::copy` appends `*it`, `std::copy_if` appends it when the predicate holds (std::inserter: `insert`)."""
@@ -841,6 +893,13 @@ def desugar_algorithms(facts):
                     last = _lastname(E.get('name'))
                     if (E.get('name') or '').startswith('std::') and last in ('transform', 'copy', 'copy_if'):
                         if _desugar_into_container(facts, F, B, ei, E, last, n + 1):
+                            n += 1
+                            F.setdefault('desugared', []).append(last)
+                            changed = True
+                            break
+                        continue
+                    if (E.get('name') or '').startswith('std::') and last in ('max_element', 'min_element'):
+                        if _desugar_extremum(facts, F, B, ei, E, last, n + 1):
                             n += 1
                             F.setdefault('desugared', []).append(last)
                             changed = True
